@@ -129,8 +129,10 @@ func TestProp(t *testing.T) {
 	if out != "" {
 		journal, _ = os.Create(out + ".journal")
 	}
+	finished := false
 	finish := func() {
-		if out != "" {
+		if out != "" && !finished {
+			finished = true
 			_ = stats.Dump(out + ".stats")
 			if journal != nil {
 				journal.Close()
@@ -138,6 +140,7 @@ func TestProp(t *testing.T) {
 			}
 		}
 	}
+	defer finish()
 	start := time.Now()
 	failed := false
 	runOne := func(c interface{}) (js []byte, err error) {
@@ -187,7 +190,6 @@ func TestProp(t *testing.T) {
 		})
 	}
 	_ = start
-	finish()
 }
 
 // TestReplay re-runs one stored case (VERIF_REPLAY=<file>) through the same oracle, bypassing rapid.
